@@ -444,6 +444,9 @@ func (in *interp) typeDef(t *TypeDef) {
 		in.types[t.Name] = dsl.ResultType(t.Identifier, func() {
 			dsl.TypeName(t.Name)
 			dsl.Attributes(body)
+			if t.RenderView != "" {
+				dsl.View(t.RenderView)
+			}
 			for _, v := range t.Views {
 				dsl.View(v.Name, func() {
 					for _, f := range v.Attrs {
